@@ -314,6 +314,26 @@ def resource_catalogue():
         one("map_unclosed_x%d" % n_, "x = " + "map[int, int] { 1: " * min(n_, 60) + "1\n")
         one("block_unclosed_x%d" % n_, "a = true\n" + "if a {" * n_ + "\n")
         one("list_closed_wrong_x%d" % n_, "x = " + "[" * n_ + "1" + ")" * n_ + "\n")
+    # prefix operators applied to parenthesised operands, a few dozen deep (work must stay linear in the depth)
+    for n_ in (24, 40, 100, 127):
+        one("get_paren_x%d" % n_, "o: int? = 1\nx = " + "get (" * n_ + "o" + ")" * n_ + "\n")
+        one("neg_paren_x%d" % n_, "o = 1\nx = " + "-(" * n_ + "o" + ")" * n_ + "\n")
+        one("not_paren_x%d" % n_, "o = true\nx = " + "!(" * n_ + "o" + ")" * n_ + "\n")
+        one("typeof_paren_x%d" % n_, "o = 1\nx = " + "typeof (" * n_ + "o" + ")" * n_ + "\n")
+        one("or_paren_x%d" % n_, "o: int? = nil\nx = " + "(" * n_ + "o" + ") or 1" * n_ + "\n")
+        one("get_neg_mixed_x%d" % n_, "o: int? = 1\nx = " + "-(get (" * (n_ // 2) + "o" + "))" * (n_ // 2) + "\n")
+        one("index_of_index_x%d" % n_, "c: [int...] = [0]\nx = " + "c[" * n_ + "0" + "]" * n_ + "\n")
+        one("call_of_call_x%d" % n_, "f = fn(a: int) -> int { return a }\nx = " + "f(" * n_ + "1" + ")" * n_ + "\n")
+        one("list_of_list_x%d" % n_, "x = " + "[" * n_ + "1" + "]" * n_ + "\n")
+        one("listtype_vs_str_x%d" % n_, "x: " + "[" * n_ + "int" + "...]" * n_ + ' = "s"\n')
+        one("eq_nested_lists_x%d" % n_, "x = " + "[" * n_ + "1" + "]" * n_ + " == " + "[" * n_ + "2" + "]" * n_ + "\n")
+    # string literals the scanner of the nesting guard and the grammar must delimit identically
+    for tn_, lit_ in (("backslash_backslash_quote", '"\\\\" + "'), ("escaped_quote", '"a\\"b" + "'), ("hash_in_string", '"#" + "'),
+                      ("triple_hash_in_string", '"###" + "'), ("backslash_n", '"\\n" + "'), ("lone_backslash_end", '"a\\\\"')):
+        one("string_%s_then_deep_nesting" % tn_, "x = " + lit_ + ' + "z"\ny = ' + "(" * 1500 + "1" + ")" * 1500 + "\n")
+        one("string_%s_then_code" % tn_, "x = " + lit_ + ' + "z"\nprint x\n')
+    one("brackets_inside_string_only", 'x = "' + "([" * 300 + '"\nprint x.len()\n')
+    one("brackets_inside_string_after_escaped_quote", 'x = "\\"' + "([" * 300 + '"\nprint x.len()\n')
     # an unterminated `###` is a line comment: what follows is code
     one("unterminated_blockcomment_then_nesting", "### never closed\nx = " + "(" * 1500 + "1" + ")" * 1500 + "\n")
     one("blockcomment_hides_brackets", "### " + "(" * 500 + " ###\nx = 1\nprint x\n")
@@ -466,6 +486,43 @@ def placement_matrix():
                 body = wrap(chain[level - 1], body, level)
             out.append(("place:%s:%s" % ("/".join(chain) or "top", name),
                         {"main.ms": "a = 1\n" + body + "\n", "mod.ms": MOD_MS}, "main.ms"))
+    return out
+
+
+# ---- expression placement matrix: inner expression x hole x container chain ------------------------------------
+EXPR_PRELUDE = ('l9: [int...] = [10, 20, 30]\ns9 = "abc"\no9: int? = 1\nidf = fn(p: int) -> int { return p }\n'
+                'ap = fn(g: fn() -> int) -> int { return g() }\n'
+                'class K9 {\n\tv: int\n\trows: [int...]\n\tconstructor(self, v: int) {\n\t\tself.v = v\n\t\tself.rows = [1, 2]\n\t}\n'
+                '\tfn pick(self, g: fn() -> int) -> int { return g() }\n}\nk9 = K9(1)\n')
+INNER_EXPRS = [("fn_literal_argument", "ap(fn() -> int { return 1 })"), ("fn_literal_method_argument", "k9.pick(fn() -> int { return 1 })"),
+               ("self_method_with_fn_literal", "self.pick(fn() -> int { return 1 })"),
+               ("map_literal_len", "(map[int, int] { 1: 2 }).len()"), ("list_literal_index", "[0, 1][1]"),
+               ("new_object_field", "(K9(1)).v"), ("or_fallback", "(o9) or 1"), ("get", "get o9"),
+               ("nested_call", "idf(idf(1))"), ("nested_index", "l9[l9[0] - 10]"), ("self_field", "self.v"),
+               ("fn_literal_called_in_list", "[ap(fn() -> int { return 1 })][0]")]
+HOLES = [("index", "x9 = l9[{E}]"), ("paren_index", "x9 = (l9)[{E}]"), ("self_rows_index", "x9 = (self.rows)[{E}]"),
+         ("field_index", "x9 = (k9.rows)[{E}]"), ("string_index", "x9 = s9[{E}]"), ("index_assign", "l9[{E}] = 5"),
+         ("index_opassign", "l9[{E}] += 5"), ("call_argument", "x9 = idf({E})"), ("method_argument", "x9 = k9.pick(fn() -> int { return {E} })"),
+         ("list_element", "x9 = [{E}, 2]"), ("map_key", "x9 = map[int, int] { {E}: 1 }"), ("map_value", "x9 = map[int, int] { 1: {E} }"),
+         ("if_condition", "if {E} == 1 {\n}"), ("while_condition", "while {E} == 9 {\n}"), ("from_bound", "from 0 to {E} {\n}"),
+         ("from_step", "from 0 to 2 step {E} {\n}"), ("return_value", "return {E}"), ("opassign_value", "x9 = 1\nx9 += {E}"),
+         ("negated", "x9 = -({E})"), ("print", "print {E}"), ("assert", "assert {E} == 1"), ("ctor_argument", "x9 = K9({E})"),
+         ("unwrap_assign_value", "t9: int? = nil\nu9 = t9 ?= {E}")]
+EXPR_CHAINS = [[], ["fn"], ["method"], ["ctor"], ["if"], ["while"], ["from"], ["else"], ["method", "if"], ["method", "while"],
+               ["method", "fn"], ["fn", "method"], ["ctor", "from"], ["fn", "fn"], ["ctor", "fn"], ["method", "else"]]
+
+
+def expression_placement_matrix():
+    """(id, files, entry): every inner expression in every expression hole under every chain of EXPR_CHAINS."""
+    out = []
+    for chain in EXPR_CHAINS:
+        for en, e in INNER_EXPRS:
+            for hn, h in HOLES:
+                body = h.replace("{E}", e)
+                for level in range(len(chain), 0, -1):
+                    body = wrap(chain[level - 1], body, level)
+                out.append(("exprplace:%s:%s:%s" % ("/".join(chain) or "top", hn, en),
+                            {"main.ms": EXPR_PRELUDE + body + "\n"}, "main.ms"))
     return out
 
 
@@ -729,6 +786,8 @@ def work(item):
         cases = [("catalogue", cid, files, entry) for cid, files, entry in cat[seed:seed + n]]
     elif kind == "place":
         cases = [("placement_matrix", cid, files, entry) for cid, files, entry in placement_matrix()[seed:seed + n]]
+    elif kind == "exprplace":
+        cases = [("expression_placement_matrix", cid, files, entry) for cid, files, entry in expression_placement_matrix()[seed:seed + n]]
     elif kind == "place_raw":
         # the same inputs through the human-readable writer (`--output-format raw-text`)
         pm = [c for c in placement_matrix() if c[0].split(":")[1].count("/") < RAW_DEPTH[0]]
@@ -1017,6 +1076,7 @@ def plan(ctx):
     items += [("cover", i, 12) for i in range(0, len(g.alts), 12)]
     n_place = len(placement_matrix())
     items += [("place", i, 125) for i in range(0, n_place, 125)]
+    items += [("exprplace", i, 125) for i in range(0, len(expression_placement_matrix()), 125)]
     n_raw = len([c for c in placement_matrix() if c[0].split(":")[1].count("/") < RAW_DEPTH[0]])
     items += [("place_raw", i, 125) for i in range(0, n_raw, 125)]
     items += [("esc", i, 142) for i in range(0, len(escape_offset_family()), 142)]
